@@ -72,6 +72,105 @@ func ssaLin(v ssa.Value) (linForm, bool) {
 }
 
 // strShape evaluates a string-valued SSA expression to a concatenation of parts.
+// firstZeroCut: sl = temp[:idx] where idx is the first index with temp[idx] == 0, found by
+// `for idx, c := range temp { if c == 0 { temp = temp[:idx]; break } }` (the slice is taken on the loop's break edge).
+func firstZeroCut(sl *ssa.Slice, temp ssa.Value) bool {
+	if sl.X != temp || sl.Low != nil || sl.High == nil {
+		return false
+	}
+	inc, ok := sl.High.(*ssa.BinOp)
+	if !ok || inc.Op != token.ADD {
+		return false
+	}
+	ph, ok := inc.X.(*ssa.Phi)
+	if k, isK := constInt(inc.Y); !ok || !isK || k != 1 {
+		return false
+	}
+	h := ph.Block()
+	if h.Comment != "rangeindex.loop" || inc.Block() != h {
+		return false
+	}
+	// idx starts at -1 and is incremented once per iteration
+	for i, p := range h.Preds {
+		e := ph.Edges[i]
+		if h.Dominates(p) {
+			if e != ssa.Value(inc) {
+				return false
+			}
+		} else if k, isK := constInt(e); !isK || k != -1 {
+			return false
+		}
+	}
+	hif, ok := h.Instrs[len(h.Instrs)-1].(*ssa.If)
+	if !ok {
+		return false
+	}
+	cmp, ok := hif.Cond.(*ssa.BinOp)
+	if !ok || cmp.Op != token.LSS || cmp.X != ssa.Value(inc) {
+		return false
+	}
+	ln, ok := cmp.Y.(*ssa.Call)
+	if !ok {
+		return false
+	}
+	if bi, isB := ln.Call.Value.(*ssa.Builtin); !isB || bi.Name() != "len" || ln.Call.Args[0] != temp {
+		return false
+	}
+	body := h.Succs[0]
+	bif, ok := body.Instrs[len(body.Instrs)-1].(*ssa.If)
+	if !ok || len(body.Preds) != 1 {
+		return false
+	}
+	eq, ok := bif.Cond.(*ssa.BinOp)
+	if !ok || eq.Op != token.EQL {
+		return false
+	}
+	x, y := eq.X, eq.Y
+	if _, isK := x.(*ssa.Const); isK {
+		x, y = y, x
+	}
+	if k, isK := constInt(y); !isK || k != 0 {
+		return false
+	}
+	ld, ok := x.(*ssa.UnOp)
+	if !ok || ld.Op != token.MUL {
+		return false
+	}
+	ia, ok := ld.X.(*ssa.IndexAddr)
+	if !ok || ia.X != temp || ia.Index != ssa.Value(inc) {
+		return false
+	}
+	// the true edge leaves the loop to the block that cuts; the false edge goes back to the header
+	back := body.Succs[1]
+	for i := 0; i < 3 && back != h; i++ {
+		if _, isJ := back.Instrs[len(back.Instrs)-1].(*ssa.Jump); !isJ || len(back.Instrs) != 1 {
+			return false
+		}
+		back = back.Succs[0]
+	}
+	if back != h {
+		return false
+	}
+	cutBlock := sl.Block()
+	if len(cutBlock.Preds) != 1 || cutBlock.Preds[0] != body || body.Succs[0] != cutBlock {
+		return false
+	}
+	// nothing in the loop has an effect
+	for _, b := range []*ssa.BasicBlock{h, body} {
+		for _, ins := range b.Instrs {
+			switch y := ins.(type) {
+			case *ssa.Store, *ssa.MapUpdate, *ssa.Go, *ssa.Defer, *ssa.Send:
+				return false
+			case *ssa.Call:
+				if bi, isB := y.Call.Value.(*ssa.Builtin); !isB || bi.Name() != "len" {
+					return false
+				}
+			}
+		}
+	}
+	return true
+}
+
 func strShape(v ssa.Value) []strPart {
 	switch x := v.(type) {
 	case *ssa.Parameter:
@@ -475,6 +574,19 @@ func shapeRules(c *core.Ctx) {
 					}
 				}
 			}
+			if ok && !cut && len(trim) == 0 {
+				// hand-written search: for idx, c := range temp { if c == 0 { temp = temp[:idx]; break } }
+				n := 0
+				for _, b := range fn.Blocks {
+					for _, ins := range b.Instrs {
+						if sl, isS := ins.(*ssa.Slice); isS && sl.X == ssa.Value(temp) {
+							n++
+							cut = firstZeroCut(sl, temp)
+						}
+					}
+				}
+				cut = cut && n == 1
+			}
 			ok = ok && cut
 			detail += ", cuts at the first 0x00"
 		} else if len(trim) != 0 {
@@ -497,7 +609,7 @@ func shapeRules(c *core.Ctx) {
 		inline := func(call *ssa.Call, callee *ssa.Function) bool {
 			return callee.Pkg == fn.Pkg && callee.Signature.Recv() != nil && len(callee.Blocks) > 0 && callee.Name() == "short"
 		}
-		ps, err := paths.Enumerate(fn, paths.Config{Inline: inline, MaxDepth: 1})
+		ps, err := paths.Enumerate(fn, paths.Config{Inline: inline, MaxDepth: 1, SkipPureLoops: true})
 		if err != nil {
 			c.Unknown(rule, key, pos, "path enumeration failed: "+err.Error())
 			continue
@@ -612,6 +724,9 @@ func shapeRules(c *core.Ctx) {
 			okRes := v == temp
 			if sl, ok := v.(*ssa.Slice); ok && name == "ReadCStringN" && sl.X == temp && sl.Low == nil {
 				if call, ok := sl.High.(*ssa.Call); ok && calleeName(call) == "bytes.IndexByte" {
+					okRes = true
+				}
+				if firstZeroCut(sl, temp) {
 					okRes = true
 				}
 			}
@@ -753,7 +868,7 @@ func shapeRules(c *core.Ctx) {
 			inline := func(call *ssa.Call, callee *ssa.Function) bool {
 				return callee.Pkg == fn.Pkg && callee.Signature.Recv() != nil && len(callee.Blocks) > 0 && !callee.Object().Exported()
 			}
-			ps, err := paths.Enumerate(fn, paths.Config{Inline: inline, MaxDepth: 2})
+			ps, err := paths.Enumerate(fn, paths.Config{Inline: inline, MaxDepth: 2, SkipPureLoops: true})
 			if err != nil {
 				continue // loops etc.: covered by the per-primitive rules
 			}
